@@ -32,7 +32,8 @@ class C19(CheckBase):
                    'is decided']
     expected_probes = ['provider_tls', 'consumer_enforced', 'consumer_optional', 'shared_server', 'alt_hostname', 'restart',
                        'fallback_to_plaintext_seen', 'enforced_refused_plaintext_peer', 'downgrade_attempt',
-                       'downgrade_refused']
+                       'downgrade_refused', 'tls_provider_on_plaintext_shared_server', 'plaintext_probe_requests',
+                       'retry_refused']
     max_steps = 6_000_000
 
     def budget(self, tier):
@@ -41,6 +42,8 @@ class C19(CheckBase):
     def generate(self, rng, tier):
         cell = {'provider_tls': rng.random() < 0.6, 'consumer': rng.choice(['none', 'optional', 'enforced', 'enforced']),
                 'provider_shared': rng.random() < 0.3, 'consumer_shared': rng.random() < 0.3,
+                # the application hands the TLS-configured provider an HTTP server that itself has no TLS context
+                'shared_plain': rng.random() < 0.4,
                 'alt_host': rng.random() < 0.3, 'cyphers': rng.choice([None, 'HIGH:!aNULL'])}
         cfg = worldb.draw_config(rng, periodic=None, mdib='tns', max_subscription_duration=15, frag_max=None,
                                  provider_codings=None if rng.random() < 0.5 else ['gzip'])
@@ -79,7 +82,10 @@ class C19(CheckBase):
         if cell['provider_shared']:
             ctx.probe('shared_server')
             with worldb.node(worldb.PROVIDER_IP):
-                shared_p = HttpServerThreadBase(worldb.PROVIDER_IP, p_cont.server_context if p_cont else None,
+                plain = bool(cell.get('shared_plain')) and p_cont is not None
+                if plain:
+                    ctx.probe('tls_provider_on_plaintext_shared_server')
+                shared_p = HttpServerThreadBase(worldb.PROVIDER_IP, p_cont.server_context if (p_cont and not plain) else None,
                                                 ['gzip'], loghelper.get_logger_adapter('sdc.shared'))
                 shared_p.start()
                 shared_p.started_evt.wait(5)
@@ -90,6 +96,15 @@ class C19(CheckBase):
             from sdc11073.location import SdcLocation
             w.provider.set_location(SdcLocation(fac='f1', poc='p1', bed='b1'), publish_now=True)
         prov = w.provider
+        if cell['provider_shared'] and cell.get('shared_plain') and p_cont is not None:
+            # nobody can talk TLS to this provider; a plaintext peer reads what it advertises (device metadata, hosted
+            # service metadata, SubscribeResponse) - every address in there has to be https all the same
+            self._probe_plain(ctx, w, prov)
+            finished, exc = w.stop_provider_guarded(plan['send_end'])
+            s.sleep(0.2)
+            with s.no_preempt():
+                self._judge(ctx, w, cell, p_cont, None, None)
+            return
         consumer_failed = None
         c = None
         ckw = {}
@@ -116,6 +131,19 @@ class C19(CheckBase):
             raise consumer_failed
         if consumer_failed is not None and cell['consumer'] == 'enforced':
             ctx.probe('enforced_refused_plaintext_peer')
+            # the application retries on the same consumer object: still TLS or nothing
+            c_failed = getattr(w, 'last_consumer', None)
+            if c_failed is not None and plan.get('downgrade'):
+                for _ in range(2):
+                    with worldb.node(worldb.CONSUMER_IPS[0]):
+                        try:
+                            c_failed.start_all(**(w.cfg.get('consumer_start_args') or {}))
+                            ctx.violation('C19.consumer', 'connected-on-retry-after-failed-handshake',
+                                          f'{cell}: a repeated start_all of the TLS-enforced consumer succeeded against a '
+                                          f'plaintext peer')
+                        except Exception:  # noqa: BLE001
+                            ctx.probe('retry_refused')
+                    w.settle(1.0)
         if c is not None:
             if cell['consumer'] == 'optional' and not cell['provider_tls']:
                 ctx.probe('fallback_to_plaintext_seen')
@@ -179,6 +207,37 @@ class C19(CheckBase):
         s.sleep(0.5)
         with s.no_preempt():
             self._judge(ctx, w, cell, p_cont, c_cont, c)
+
+    def _probe_plain(self, ctx, w, prov):
+        from lxml import etree
+        from dsim import peers
+        from dsim.xsd import NS
+        paddr = (worldb.PROVIDER_IP, prov._http_server.server_port)
+        cl = peers.RawClient('10.0.0.7', paddr)
+        base = f'/{prov.path_prefix}'
+        reqs = [(base, 'http://schemas.xmlsoap.org/ws/2004/09/transfer/Get', [])]
+        for svc in prov.hosted_services.dpws_hosted_services.values():
+            el = etree.Element(etree.QName('http://schemas.xmlsoap.org/ws/2004/09/mex', 'GetMetadata'))
+            reqs.append((f'{base}/{svc.path_element}', 'http://schemas.xmlsoap.org/ws/2004/09/mex/GetMetadata/Request', [el]))
+        n = 0
+        for path, action, body in reqs:
+            n += 1
+            try:
+                cl.post(path, peers.envelope(action, f'https://{paddr[0]}:{paddr[1]}{path}', body, f'urn:uuid:c19-probe-{n}'))
+                ctx.probe('plaintext_probe_requests')
+            except (OSError, Exception):  # noqa: BLE001
+                pass
+        ep = peers.Endpoint('10.0.0.7', 'probe')
+        A = w.mdib.sdc_definitions.Actions
+        svc = prov.hosted_services.dpws_hosted_services['StateEvent']
+        path = f'{base}/{svc.path_element}'
+        try:
+            cl.post(path, peers.mk_subscribe(f'https://{paddr[0]}:{paddr[1]}{path}', ep.url('/n0'),
+                                             [A.EpisodicMetricReport.value], expires=60, msg_id='urn:uuid:c19-probe-sub'))
+            ctx.probe('plaintext_probe_requests')
+        except (OSError, Exception):  # noqa: BLE001
+            pass
+        w.settle(2.0)
 
     def _static(self, ctx, cell):
         from sdc11073 import certloader
